@@ -10,6 +10,8 @@
 #include <asmjit/x86.h>
 #include <asmjit/a64.h>
 #include "vh.h"
+#include <signal.h>
+#include <unistd.h>
 
 using namespace asmjit;
 
@@ -215,4 +217,15 @@ static std::string step(const std::string& line) {
   return "bad-op";
 }
 
-int main() { return vh::line_loop(step); }
+// emit_args_assignment can fail to terminate (open finding K8): every op runs under a 5 s alarm; the process then answers TIMEOUT on
+// stderr and exits with 98 (the check isolates the line and reports it)
+static void on_alarm(int) { const char m[] = "TIMEOUT emit_args_assignment did not return within 5 s\n"; (void)!write(2, m, sizeof(m) - 1); _exit(98); }
+
+static std::string guarded_step(const std::string& line) {
+  alarm(5);
+  std::string r = step(line);
+  alarm(0);
+  return r;
+}
+
+int main() { signal(SIGALRM, on_alarm); return vh::line_loop(guarded_step); }
